@@ -265,13 +265,12 @@ func (t *c04vTr) cases(sw *ast.SwitchStmt, row func(ast.Stmt) (string, error)) (
 	return out, nil
 }
 
-
 type c04vSpec struct {
-	n                              int
-	wfile, rfile                   string
-	binW, asciiW, binR             string
-	comps                          []string
-	offFields                      []string
+	n                  int
+	wfile, rfile       string
+	binW, asciiW, binR string
+	comps              []string
+	offFields          []string
 }
 
 // literal K of `recv.buf[K]` / `recv.buf[K:]`; `recv.buf` itself is offset 0
@@ -594,6 +593,132 @@ func c04vVector(fset *token.FileSet, repo string, sp c04vSpec) (binWrite, asciiW
 	return
 }
 
+// ASCII N-vector reader: `kParsed, err := strconv.ParseFloat(buf[recv.kOffset], BITS)` per component (each followed by
+// `if err != nil { return err }`), `v := vectorN.New(xParsed, …)`, `if recv.scalarType == T { v = v.DivByConstant(K) }`
+func c04vAsciiVecRead(fset *token.FileSet, repo string, sp c04vSpec) (rows, post []string, pos string, err error) {
+	rf, err := parser.ParseFile(fset, filepath.Join(repo, "formats", "ply", sp.rfile), nil, 0)
+	if err != nil {
+		return
+	}
+	typ := fmt.Sprintf("builtAsciiVector%dPropertyReader", sp.n)
+	fd := c04vMethod(rf, typ, "Read")
+	if fd == nil {
+		err = fmt.Errorf("%s: %s.Read not found", sp.rfile, typ)
+		return
+	}
+	t := &c04vTr{fset: fset, file: sp.rfile, recv: fd.Recv.List[0].Names[0].Name}
+	pos = t.at(fd)
+	q := strconv.Quote
+	parsed := map[string][2]string{} // variable -> (offset field, bits)
+	built := false
+	for _, st := range fd.Body.List {
+		switch x := st.(type) {
+		case *ast.AssignStmt:
+			if len(x.Rhs) != 1 {
+				err = fmt.Errorf("%s: unsupported statement", t.at(x))
+				return
+			}
+			call, isCall := x.Rhs[0].(*ast.CallExpr)
+			switch {
+			case x.Tok == token.DEFINE && len(x.Lhs) == 2 && isCall && len(call.Args) == 2: // kParsed, err := strconv.ParseFloat(buf[recv.F], BITS)
+				sel, ok := call.Fun.(*ast.SelectorExpr)
+				ix, ok2 := call.Args[0].(*ast.IndexExpr)
+				lit, ok3 := call.Args[1].(*ast.BasicLit)
+				if !ok || !ok2 || !ok3 || sel.Sel.Name != "ParseFloat" {
+					err = fmt.Errorf("%s: not strconv.ParseFloat(buf[off], bits)", t.at(x))
+					return
+				}
+				bufId, ok := ix.X.(*ast.Ident)
+				off, ok2 := ix.Index.(*ast.SelectorExpr)
+				if !ok || !ok2 || bufId.Name != "buf" || !t.isRecvField(off, off.Sel.Name) {
+					err = fmt.Errorf("%s: not strconv.ParseFloat(buf[recv.off], bits)", t.at(x))
+					return
+				}
+				parsed[x.Lhs[0].(*ast.Ident).Name] = [2]string{off.Sel.Name, lit.Value}
+			case x.Tok == token.DEFINE && len(x.Lhs) == 1 && isCall: // v := vectorN.New(xParsed, …)
+				sel, ok := call.Fun.(*ast.SelectorExpr)
+				if !ok || sel.Sel.Name != "New" || len(call.Args) != sp.n || built {
+					err = fmt.Errorf("%s: not v := vector%d.New(…)", t.at(x), sp.n)
+					return
+				}
+				if id, ok := sel.X.(*ast.Ident); !ok || id.Name != fmt.Sprintf("vector%d", sp.n) {
+					err = fmt.Errorf("%s: not v := vector%d.New(…)", t.at(x), sp.n)
+					return
+				}
+				for k, a := range call.Args {
+					id, ok := a.(*ast.Ident)
+					p, ok2 := parsed[func() string {
+						if ok {
+							return id.Name
+						}
+						return ""
+					}()]
+					if !ok || !ok2 || p[0] != sp.offFields[k] {
+						err = fmt.Errorf("%s: component %s is not the value parsed at %s", t.at(a), sp.comps[k], sp.offFields[k])
+						return
+					}
+					rows = append(rows, fmt.Sprintf("(%s, %s, %s)", q(sp.comps[k]), q(p[0]), p[1]))
+				}
+				built = true
+			case x.Tok == token.ASSIGN && len(x.Lhs) == 1: // recv.arr[i] = v
+				ix, ok := x.Lhs[0].(*ast.IndexExpr)
+				if !ok || !t.isRecvField(ix.X, "arr") {
+					err = fmt.Errorf("%s: unsupported statement", t.at(x))
+					return
+				}
+			default:
+				err = fmt.Errorf("%s: unsupported statement", t.at(x))
+				return
+			}
+		case *ast.IfStmt:
+			be, ok := x.Cond.(*ast.BinaryExpr)
+			if !ok || x.Else != nil || x.Init != nil || len(x.Body.List) != 1 {
+				err = fmt.Errorf("%s: unsupported if", t.at(x))
+				return
+			}
+			if be.Op == token.NEQ {
+				id, ok := be.X.(*ast.Ident)
+				_, ok2 := x.Body.List[0].(*ast.ReturnStmt)
+				if !ok || !ok2 || id.Name != "err" {
+					err = fmt.Errorf("%s: unsupported if", t.at(x))
+					return
+				}
+				continue
+			}
+			ty, ok2 := be.Y.(*ast.Ident)
+			as, ok3 := x.Body.List[0].(*ast.AssignStmt)
+			if be.Op != token.EQL || !t.isRecvField(be.X, "scalarType") || !ok2 || !ok3 || as.Tok != token.ASSIGN || len(as.Rhs) != 1 {
+				err = fmt.Errorf("%s: unsupported if", t.at(x))
+				return
+			}
+			call, ok := as.Rhs[0].(*ast.CallExpr) // v = v.DivByConstant(K)
+			if !ok || len(call.Args) != 1 {
+				err = fmt.Errorf("%s: unsupported conditional statement", t.at(x))
+				return
+			}
+			sel, ok := call.Fun.(*ast.SelectorExpr)
+			lit, ok2 := call.Args[0].(*ast.BasicLit)
+			if !ok || !ok2 || sel.Sel.Name != "DivByConstant" {
+				err = fmt.Errorf("%s: unsupported conditional statement", t.at(x))
+				return
+			}
+			if id, ok := sel.X.(*ast.Ident); !ok || id.Name != "v" {
+				err = fmt.Errorf("%s: unsupported conditional statement", t.at(x))
+				return
+			}
+			post = append(post, fmt.Sprintf("(%s, %s)", q(ty.Name), q("(DivByConstant "+strings.TrimSuffix(lit.Value, ".")+" v)")))
+		case *ast.ReturnStmt:
+		default:
+			err = fmt.Errorf("%s: unsupported statement", t.at(st))
+			return
+		}
+	}
+	if !built {
+		err = fmt.Errorf("%s: vector%d.New(…) not found", pos, sp.n)
+	}
+	return
+}
+
 func c04Values(repo, out string, args []string) error {
 	fset := token.NewFileSet()
 	wf, err := parser.ParseFile(fset, filepath.Join(repo, "formats", "ply", "writer_vector1.go"), nil, 0)
@@ -835,6 +960,12 @@ func c04Values(repo, out string, args []string) error {
 		fmt.Fprintf(&b, "/-- %s  %s.Write: per `case` the stores (byte offset in the record buffer, component, store, expression in the component `v` — vector-library methods read componentwise) -/\ndef v%dBinWrite : List (List String × List (Nat × String × String × String)) :=\n  [%s]\n\n", pos[0], sp.binW, sp.n, strings.Join(bwr, ",\n   "))
 		fmt.Fprintf(&b, "/-- %s  %s.Write: per `case` the prints (component, strconv call, expression), separated by `append(buf, ' ')`; a `fallthrough` case carries the following case's body -/\ndef v%dAsciiWrite : List (List String × List (String × String × String)) :=\n  [%s]\n\n", pos[1], sp.asciiW, sp.n, strings.Join(awr, ",\n   "))
 		fmt.Fprintf(&b, "/-- %s  %s.Read: per `case` (component, expression in the bytes `wire` at that component's offset field) -/\ndef v%dBinRead : List (List String × List (String × String)) :=\n  [%s]\n\n", pos[2], sp.binR, sp.n, strings.Join(brd, ",\n   "))
+		arows, apost, apos, err := c04vAsciiVecRead(fset, repo, sp)
+		if err != nil {
+			return err
+		}
+		fmt.Fprintf(&b, "/-- %s  builtAsciiVector%dPropertyReader.Read: per component (component, offset field of the token, bit size of `strconv.ParseFloat`), in the order of `vector%d.New(…)` -/\ndef v%dAsciiRead : List (String × String × Nat) :=\n  [%s]\n\n", apos, sp.n, sp.n, sp.n, strings.Join(arows, ", "))
+		fmt.Fprintf(&b, "/-- … and the conditional post-processing `if scalarType == T { v = v.DivByConstant(K) }` -/\ndef v%dAsciiReadPost : List (String × String) :=\n  [%s]\n\n", sp.n, strings.Join(apost, ", "))
 	}
 	b.WriteString("end PolyVerif.Gen.PlyValues\n")
 	return os.WriteFile(out, []byte(b.String()), 0o644)
